@@ -148,6 +148,24 @@ func (w *World) step(e Event, check bool) []mc.Violation {
 	case "crash":
 		w.crashed[e.A] = true
 		w.crashUsed++
+	case "echo":
+		// node B sends node A a delta (and a digest) about A itself, ahead of A
+		me := w.nodes[e.A].State.LocalNode()
+		from := w.nodes[e.B]
+		pre := w.snapLocal(e.A)
+		if b, err := gossip.VEncodeDelta(gossip.VDeltaHeader{NodeID: from.ID, Addr: from.Addr}, gossip.VDelta{{ID: me.ID, Addr: me.Addr, Entries: []gossip.Entry{
+			{Key: "a", Value: "9", Version: me.Version + 100},
+			{Key: "z", Value: "1", Version: me.Version + 101},
+			{Key: "b", Version: me.Version + 102, Deleted: true},
+		}}}, 1400); err == nil {
+			_ = w.nodes[e.A].pl.VHandlePacket(b)
+		}
+		if b, err := gossip.VEncodeDigest(gossip.VDigestHeader{NodeID: from.ID, Addr: from.Addr}, gossip.VDigest{{ID: me.ID, Addr: me.Addr, Version: me.Version + 200}}, 1400); err == nil {
+			_ = w.nodes[e.A].pl.VHandlePacket(b)
+		}
+		w.cascade = nil
+		w.checkLocalUnchanged(e.A, pre, "datagram about itself (from a peer that remembers an earlier incarnation)")
+		w.echoUsed++
 	default:
 		panic("gw: unknown event " + e.Kind)
 	}
@@ -382,6 +400,16 @@ func (w *World) Enabled() []Event {
 			}
 		}
 	}
+	if w.echoUsed < sc.MaxEcho {
+		for _, x := range sc.Echo {
+			for j := range w.nodes {
+				if j != x && alive(x) {
+					evs = append(evs, Event{Kind: "echo", A: x, B: j})
+					break
+				}
+			}
+		}
+	}
 	if w.crashUsed < sc.MaxCrash {
 		for _, x := range sc.Crash {
 			if alive(x) {
@@ -444,7 +472,7 @@ func (w *World) Canon() string {
 		sb.WriteString(p.Desc)
 		sb.WriteString("\n")
 	}
-	fmt.Fprintf(&sb, "B d=%d u=%d j=%d s=%d w=%d c=%d h=%d", w.digUsed, w.dupUsed, w.joinUsed, w.suspUsed, w.sweepUsed, w.crashUsed, w.holdUsed)
+	fmt.Fprintf(&sb, "B d=%d u=%d j=%d s=%d w=%d c=%d h=%d", w.digUsed, w.dupUsed, w.joinUsed, w.suspUsed, w.sweepUsed, w.crashUsed*10+w.echoUsed, w.holdUsed)
 	return sb.String()
 }
 
